@@ -73,6 +73,9 @@ X_FAMILIES = {
     "lines_then_open": lambda n: "x\n" * n + "@a{xk, t = {",
     "failed_blocks": lambda n: "@a{xk a b}\n" * n,
     "backslash_lines": lambda n: "\\\n" * n,
+    # complete blocks (never edited) that hold the suffixes' keys without owning them: n entries that repeat a field -
+    # failed blocks, their keys are not live - and a comment mentioning the keys
+    "failed_entries_holding_suffix_keys": lambda n: "\n".join("@a{%s, x = 1, x = 2}" % k for k in (["d2a", "d2b", "d2c", "d2d", "d2f", "d2m", "d2k"] * n)[:n]) + "\n@comment{d2a d2b d2s}",
 }
 X_SIZES = {"quick": [1, 10, 100, 990, 1000, 1010, 3000], "thorough": [1, 10, 100, 990, 1000, 1010, 3000, 10**4, 10**5]}
 
